@@ -23,7 +23,7 @@ ASSUMPTIONS = ["dask time arrays and non-UTC time zones are outside the statemen
                "pressure_increasing_test documents no missing-data handling: it gets fully present series",
                "valid_range_test on sequences without a dtype is called with dtype= as its docstring asks"]
 
-DATA_KINDS = ["list_none", "list_nan", "tuple_nan", "f32", "int", "masked_nan", "masked_junk", "masked_mixed", "masked_int", "series", "series_shifted",
+DATA_KINDS = ["list_none", "list_nan", "tuple_nan", "f32", "int", "masked_nan", "masked_junk", "masked_mixed", "masked_int", "masked_fill", "series", "series_shifted",
               "dask", "object"]
 TIME_KINDS = [k for k in carriers.TIME_CARRIERS if k != "dt64ns"]
 NAMES = ["gross_range", "climatology", "spike", "roc", "flat_line", "attenuated", "density", "pressure", "location", "speed"]
@@ -64,7 +64,7 @@ def check_carriers(tc, rec):
         return
     combos = []
     for k in DATA_KINDS:
-        if name == "pressure" and k in ("list_none", "masked_nan", "masked_junk", "masked_mixed", "masked_int", "object"):
+        if name == "pressure" and k in ("list_none", "masked_nan", "masked_junk", "masked_mixed", "masked_int", "masked_fill", "object"):
             continue
         combos.append(Carrier(data=k, aux="f64", junk=tc.get("junk", 0.0)))
     if t.aux or len(t.obs) > 1:
@@ -77,7 +77,7 @@ def check_carriers(tc, rec):
                 combos.append(Carrier(time=k))
     combos.append(Carrier(span="tuple"))
     for m in tc.get("mixed", []):
-        if name == "pressure" and m["data"] in ("list_none", "masked_nan", "masked_junk", "masked_mixed", "masked_int", "object"):
+        if name == "pressure" and m["data"] in ("list_none", "masked_nan", "masked_junk", "masked_mixed", "masked_int", "masked_fill", "object"):
             continue
         if not carriers.time_applicable(m["time"], tvals):
             continue
